@@ -151,6 +151,12 @@ def system_cases(ctx, n, thorough=False):
         elif mode < 0.4 and len(recs) > 2:    # a zero-length member (dropped by the library)
             k = rng.randrange(len(recs))
             recs[k] = (recs[k][0], "")
+        if rng.random() < (0.04 if not thorough else 0.06):
+            # a large cluster of identical copies (k-means cannot separate them) plus a few others that force gaps into them
+            others = recs[:rng.randint(2, 6)]
+            ncopy = rng.choice([100, 101, 103, 127, 150, 151])
+            recs = others + [("dup%d" % k, others[0][1][: max(3, len(others[0][1]) - 4)]) for k in range(ncopy)]
+            rng.shuffle(recs)
         nonempty = [r for r in recs if r[1]]
         if len(nonempty) < 2:
             continue
@@ -158,6 +164,8 @@ def system_cases(ctx, n, thorough=False):
             type_ = rng.choice([3, 4, 5])
         else:
             type_ = rng.choice([0, 1, 2, 5])
+        if gen.detect_kind(recs) != ("protein" if kind == "protein" else "dna"):
+            type_ = 5      # short / ambiguity-rich sets may be classified as the other kind: an explicit type would rightly be rejected
         pens = [-1, -1, -1]
         if rng.random() < 0.35:
             for k in range(3):
@@ -168,7 +176,7 @@ def system_cases(ctx, n, thorough=False):
             api = "file"
         fmt = rng.choice(["fasta", "msf", "clu"])
         th = rng.choice([1, 1, 2, 4, 7, 16])
-        cases.append(Case(recs, type_, pens[0], pens[1], pens[2], th, fmt, api, evlog=(len(recs) <= 60)))
+        cases.append(Case(recs, type_, pens[0], pens[1], pens[2], th, fmt, api if len(recs) < 90 else "file", evlog=(len(recs) <= 60)))
     return cases
 
 
